@@ -1,5 +1,5 @@
-Require Import Verif.Model.C17.
+Require Import Verif.Model.C17 Verif.Model.C17_glue.
 Require Extraction.
 Require Import ExtrOcamlBasic.
-Definition run := run_C17.
+Definition run := run_C17x.
 Extraction "C17_model.ml" run.
